@@ -4,6 +4,7 @@ import PypyrModel.Json
 import PypyrModel.Fmt
 import PypyrModel.FmtHeap
 import PypyrModel.Merge
+import Driver.OpHeap
 
 namespace Pypyr.OpMerge
 open Lean (Json JsonNumber)
@@ -56,6 +57,57 @@ def handle (op : String) (j : Json) : Except String Json := do
       | "default" => pure true
       | _ => throw s!"unknown step {which}"
     result ((runStep useDefaults (fuelOf j) root).map fun r => (r, []))
+  | "seq" =>
+    -- {ctx, ops: [{op: "merge"|"defaults"|"step-merge"|"step-default", add?}…]} → {ok: {ctx}} | {err, at}
+    let root ← rootOfJson (← j.getObjVal? "ctx")
+    let ops ← (← (← j.getObjVal? "ops").getArr?).toList.mapM fun o => do
+      let name ← (← o.getObjVal? "op").getStr?
+      let add? ← match o.getObjVal? "add" with
+        | .ok a => do
+          let v ← Val.ofJson a
+          if !okVal v then throw "incoming value breaks the representation invariant"
+          pure (some v)
+        | .error _ => pure none
+      match name, add? with
+      | "merge", some a => pure (Op.merge a)
+      | "defaults", some a => pure (Op.defaults a)
+      | "step-merge", a => pure (Op.step false a)
+      | "step-default", a => pure (Op.step true a)
+      | _, _ => throw s!"bad op {name}"
+    match runOps (fuelOf j) root ops with
+    | .error (i, e) =>
+      if e.name == "OutOfDomain" then .error ("out of domain: " ++ e.msg)
+      else .ok (Json.mkObj [("err", e.toJson), ("at", Json.num (JsonNumber.fromNat i))])
+    | .ok root' =>
+      if !FmtHeap.keysHashable (.dict root') then .error "out of domain: result has an unhashable key or set member"
+      else .ok (Json.mkObj [("ok", Json.mkObj [("ctx", (Val.dict root').toJson), ("trace", traceJ [])])])
+  | "seqHeap" =>
+    -- heap level: {cells, root, ops: [{op, add?: ref}…], fuel?} → {ok: {cells, n0}} | {err, at}
+    let cells ← (← (← j.getObjVal? "cells").getArr?).toList.mapM OpHeap.cellOfJson
+    if !OpHeap.heapOk cells then throw "heap is not a well-formed DAG"
+    let root ← jsonNat? (← j.getObjVal? "root")
+    if root ≥ cells.length then throw "dangling root"
+    let ops ← (← (← j.getObjVal? "ops").getArr?).toList.mapM fun o => do
+      let name ← (← o.getObjVal? "op").getStr?
+      let add? ← match o.getObjVal? "add" with
+        | .ok a => do
+          let r ← jsonNat? a
+          if r ≥ cells.length then throw "dangling incoming ref"
+          pure (some r)
+        | .error _ => pure none
+      match name, add? with
+      | "merge", some a => pure (MergeHeap.OpH.merge a)
+      | "defaults", some a => pure (MergeHeap.OpH.defaults a)
+      | "step-merge", a => pure (MergeHeap.OpH.step false a)
+      | "step-default", a => pure (MergeHeap.OpH.step true a)
+      | _, _ => throw s!"bad op {name}"
+    match MergeHeap.runOpsH (fuelOf j) root cells ops with
+    | .error (i, e) =>
+      if e.name == "OutOfDomain" then .error ("out of domain: " ++ e.msg)
+      else .ok (Json.mkObj [("err", e.toJson), ("at", Json.num (JsonNumber.fromNat i))])
+    | .ok h =>
+      .ok (Json.mkObj [("ok", Json.mkObj [("n0", OpHeap.natJ cells.length),
+        ("cells", Json.arr (h.map OpHeap.cellToJson).toArray)])])
   | _ => .error s!"unknown op {op}"
 
 end Pypyr.OpMerge
